@@ -470,7 +470,16 @@ fn c08_search(p: &Pos, depth: u8) -> Result<Option<String>, String> {
 }
 
 /// Returns true when the position gave rise to at least one trial.
-fn c08_position(p: &Pos, rng: &mut Rng, st: &mut Stats, only_depth: Option<u8>, max_men_for_depth4: usize) -> bool {
+fn c08_position(p_in: &Pos, rng: &mut Rng, st: &mut Stats, only_depth: Option<u8>, max_men_for_depth4: usize) -> bool {
+    // the move counters of the FEN are part of the input: vary them (a checkmate stands whatever
+    // the halfmove clock says, and a move that allows mate in one is a blunder at any clock)
+    let mut pp = p_in.clone();
+    if only_depth.is_none() && rng.chance(1, 2) {
+        pp.half = *rng.pick(&[0u32, 1, 50, 90, 97, 98, 99]);
+        pp.full = pp.half / 2 + *rng.pick(&[1u32, 20, 200]);
+        st.bump("positions_examined_with_hostile_move_counters");
+    }
+    let p = &pp;
     let legal = p.legal_moves();
     if legal.len() < 2 {
         return false;
@@ -585,9 +594,9 @@ fn g_mating(rng: &mut Rng) -> Pos {
 pub fn run_c08(ctx: &Ctx) -> i32 {
     let spec = Spec {
         level: "exploration",
-        rule: "a case is (position, depth) met along random games, synthetic positions and king-hunt studies that satisfies (a) the side to move has a mate in one (depth 1..4, depth 4 only with few men): the answer of find_best_move on a fresh engine must be one of the mating moves; or (b) no mate in one, and the legal moves split into ones that allow the opponent a mate in one and ones that do not (depth 2..3): the answer must not be one that allows it. Sets are computed with the reference rules only. Distinct by (position, depth, kind); (a) is non-trivial when some legal move does not mate, (b) always",
+        rule: "a case is (position, depth) met along random games, synthetic positions and king-hunt studies that satisfies (a) the side to move has a mate in one (depth 1..4, depth 4 only with few men): the answer of find_best_move on a fresh engine must be one of the mating moves; or (b) no mate in one, and the legal moves split into ones that allow the opponent a mate in one and ones that do not (depth 2..3): the answer must not be one that allows it. Sets are computed with the reference rules only; half of the positions are given with hostile move counters (halfmove clock up to 99). Distinct by (position, depth, kind); (a) is non-trivial when some legal move does not mate, (b) always",
         assumptions: vec!["the reference rules implementation is correct (perft self-test at every run)".into()],
-        required: if ctx.replay.is_some() { vec![] } else { vec!["mate_in_one_trials_depth_1", "mate_in_one_trials_depth_2", "mate_in_one_trials_depth_3", "mate_in_one_trials_depth_4", "avoidable_mate_trials_depth_2", "avoidable_mate_trials_depth_3"] },
+        required: if ctx.replay.is_some() { vec![] } else { vec!["mate_in_one_trials_depth_1", "mate_in_one_trials_depth_2", "mate_in_one_trials_depth_3", "mate_in_one_trials_depth_4", "avoidable_mate_trials_depth_2", "avoidable_mate_trials_depth_3", "positions_examined_with_hostile_move_counters"] },
         exhaustive: false,
         extra: vec![],
     };
@@ -604,7 +613,7 @@ pub fn run_c08(ctx: &Ctx) -> i32 {
         }
         return finalize(ctx, spec, st);
     }
-    let n = ctx.budget(4000, 150_000);
+    let n = ctx.budget(8000, 150_000);
     let total = parallel(ctx.workers, |w| {
         let mut st = Stats::new();
         let mut rng = Rng::new(ctx.seed, 8000 + w as u64);
